@@ -11,6 +11,7 @@ up in /verif/known_findings.jsonl, which is never written at run time.
 from __future__ import annotations
 
 import ast
+import contextlib
 import dataclasses
 import json
 import os
@@ -67,6 +68,7 @@ class Ctx:
         self.counts: dict[str, int] = {}
         self.notes: list[str] = []
         self.stats: dict[str, Any] = {}
+        self._alias: dict[str, str] = {}
         self.rules: dict[str, str] = {}             # rule id -> one-line description
         self.assumptions: list[str] = []
         self._program = None
@@ -122,17 +124,30 @@ class Ctx:
         self.floors[rid] = floor
         self.counts.setdefault(rid, 0)
 
+    @contextlib.contextmanager
+    def as_rule(self, **alias: str):
+        """run a rule written for another property under this property's rule ids:
+        `with ctx.as_rule(C06_R4="C01.R10"): c06.r4_call(ctx, nf)`"""
+        old = dict(self._alias)
+        self._alias.update({k.replace("_", "."): v for k, v in alias.items()})
+        try:
+            yield
+        finally:
+            self._alias = old
+
     def _count(self, rule: str) -> None:
         if rule not in self.rules:
             raise AnalysisError(f"internal: rule {rule} used before being declared")
         self.counts[rule] = self.counts.get(rule, 0) + 1
 
     def ok(self, rule: str, construct: str, detail: str = "") -> None:
+        rule = self._alias.get(rule, rule)
         self._count(rule)
         self.instances.append({"rule": rule, "construct": construct, "holds": True, "detail": detail[:300]})
 
     def fail(self, rule: str, construct: str, file: str | pathlib.Path, line: int, msg: str,
              node: ast.AST | None = None, expected: str = "", found: str = "") -> None:
+        rule = self._alias.get(rule, rule)
         self._count(rule)
         file = str(file)
         try:
